@@ -33,7 +33,7 @@ TEXT = {
             "§7 C12"),
     "C13": ("Lean theorem C13_nop_invisible (and the stronger _items forms): for every well-formed item list and every insertion of [nop] symbols, all four flag combinations, the decoder model returns the same result (including attribution). Tied by decoder correspondence and by the equality on the real code.",
             "§7 C13"),
-    "C14": ("Lean theorems C14_split_render, C14_concat, C14_len, C14_alphabet, C14_decoder_tokens for every well-formed item list (unbounded), and C14e_encoder_output_wf / C14e_decoder_consumes / C14e_no_dot_edge: every string the encoder model returns, for every table, SMILES, flags and tape, is well formed and the decoder consumes exactly its symbols. Tie: correspondence of the three utilities on generated well-formed and malformed strings; encoder outputs checked on the real code.",
+    "C14": ("Lean theorems C14_split_render, C14_concat, C14_len, C14_alphabet, C14_decoder_tokens for every well-formed item list (unbounded), and C14e_encoder_output_wf / C14e_decoder_consumes / C14e_no_dot_edge: every string the encoder model returns, for every table, SMILES, flags and tape, is well formed and the decoder consumes exactly its symbols. len_selfies, split_selfies (a generator: items yielded + terminal exception; the fuel of its loop is proved sufficient) and get_alphabet_from_selfies are re-translated from the Python source on every run and proved equal to the model for all arguments (GenEq7, GenEq8); a rewrite that leaves the translator's subset is noted in the evidence and falls back to tie (b) for these three functions. Tie: correspondence of the three utilities on generated well-formed and malformed strings; encoder outputs checked on the real code.",
             "§7 C14"),
     "C15": ("Lean theorems C15_label, C15_onehot_rows, C15_inverse_label, C15_inverse_onehot, C15_batch_pointwise, C15_batch_inverse, C15_errors for every vocabulary bijection, string over it and pad length; encoding_to_selfies and selfies_to_encoding are re-translated from the Python source on every run and proved equal to the model for all arguments (GenEq5, GenEq6; the lazy split_selfies generator enters as 'items yielded + terminal exception'). Tied by correspondence over generated vocabularies / strings / pads / enc_type values.",
             "§7 C15"),
